@@ -243,7 +243,23 @@ pub fn key_op(op: &str, a: &[&str]) -> String {
                 Err(_) => 0,
             };
             let trusts_self = (hcm::trusted_keys(&c1) == vec![hcm::own_public_key(&c2)]) as u8;
-            format!("ok same={} printed={} accepted={} frompriv={} trust={} pub={}", same, printed_matches, accepted, from_priv, trusts_self, hex(&hcm::own_public_key(&c1)))
+            // the printed public key listed as a trusted key next to ANOTHER key (and twice): a node using the same password must
+            // still trust that key - nodes sharing a password trust each other whatever else the list holds
+            let (_, q_other) = Crypto::generate_keypair(Some(&format!("{}-another-node", pw)));
+            let mut mixed = 1u8;
+            for list in [vec![q1.clone(), q_other.clone()], vec![q_other.clone(), q1.clone()], vec![q1.clone(), q1.clone(), q_other.clone()]] {
+                let cfgm = CryptoConfig { password: Some(pw.clone()), trusted_keys: list, algorithms: vec!["plain".into()], ..Default::default() };
+                match Crypto::new([4; 16], &cfgm) {
+                    Ok(c) => {
+                        let t = hcm::trusted_keys(&c);
+                        if !t.contains(&hcm::own_public_key(&c1)) || t.len() < 2 {
+                            mixed = 0;
+                        }
+                    }
+                    Err(_) => mixed = 0,
+                }
+            }
+            format!("ok same={} printed={} accepted={} frompriv={} trust={} mixed={} pub={}", same, printed_matches, accepted, from_priv, trusts_self, mixed, hex(&hcm::own_public_key(&c1)))
         }
         _ => unreachable!(),
     }
